@@ -411,10 +411,12 @@ with latoms :=
 | ACons (col : nat) (a : latom) (l : latoms)
 with lterm :=
 | LApp (a : latom) (l : latoms)
-| LIf1 (c t e : sx)                                        (* if c then t else e   on one line *)
+| LIf1 (c t : sx) (e : option sx)                          (* if c then t [else e]   on one line *)
 | LIf (c : sx) (b1 : nat) (t : lblock) (r : lifrest)       (* if c then EOL block ... *)
-| LMatch (tg : sx) (b0 : nat) (arms : larms)
+| LMatch (tg : sx) (b0 : nat) (arms : larms)               (* union match *)
+| LSMatch (tg : sx) (b0 : nat) (arms : lsarms)             (* string match *)
 with lifrest :=
+| IEnd                                                     (* no else *)
 | IElse (bl : nat) (ecol : nat) (b : lbody)                (* else at column ecol, body on the same or next line *)
 | IElif (bl : nat) (ecol : nat) (c : sx) (b1 : nat) (t : lblock) (r : lifrest)
 with lbody :=
@@ -435,7 +437,11 @@ with lrest :=
 | LCons (bl : nat) (col : nat) (s : lstmt) (r : lrest)
 with larms :=
 | MLast (bcol : nat) (p : lpat) (b : lbody)
-| MCons (bcol : nat) (p : lpat) (b : lbody) (bl : nat) (r : larms).
+| MCons (bcol : nat) (p : lpat) (b : lbody) (bl : nat) (r : larms)
+(* string match: literal rules, closed by a variable rule or the default rule *)
+with lsarms :=
+| SLast (bcol : nat) (fin : option nat) (b : lbody)        (* | v ->  (Some v)   or   | _ ->  (None) *)
+| SCons (bcol : nat) (lit : nat) (b : lbody) (bl : nat) (r : lsarms).
 
 Definition lprog := list (nat * nat * lstmt).               (* blanks before, column, root let *)
 
@@ -473,12 +479,15 @@ with r_atoms (l : latoms) : list ptok :=
 with r_term (c : nat) (t : lterm) : list ptok :=
   match t with
   | LApp a l => r_atom c a ++ r_atoms l
-  | LIf1 cd t e => (TIF, c) :: r_sx inner cd ++ (TTHEN, inner) :: r_sx inner t ++ (TELSE, inner) :: r_sx inner e
+  | LIf1 cd t None => (TIF, c) :: r_sx inner cd ++ (TTHEN, inner) :: r_sx inner t
+  | LIf1 cd t (Some e) => (TIF, c) :: r_sx inner cd ++ (TTHEN, inner) :: r_sx inner t ++ (TELSE, inner) :: r_sx inner e
   | LIf cd b1 t r => (TIF, c) :: r_sx inner cd ++ (TTHEN, inner) :: nl b1 ++ r_block t ++ r_ifrest r
   | LMatch tg b0 arms => (TMATCH, c) :: r_sx inner tg ++ (TWITH, inner) :: nl b0 ++ r_arms arms
+  | LSMatch tg b0 arms => (TMATCH, c) :: r_sx inner tg ++ (TWITH, inner) :: nl b0 ++ r_sarms arms
   end
 with r_ifrest (r : lifrest) : list ptok :=
   match r with
+  | IEnd => []
   | IElse bl ec b => nl bl ++ (TELSE, ec) :: r_body b
   | IElif bl ec cd b1 t r' => nl bl ++ (TELIF, ec) :: r_sx inner cd ++ (TTHEN, inner) :: nl b1 ++ r_block t ++ r_ifrest r'
   end
@@ -504,6 +513,12 @@ with r_arms (a : larms) : list ptok :=
   match a with
   | MLast bc p b => (TBAR, bc) :: r_pat p ++ (TARROW, inner) :: r_body b
   | MCons bc p b bl r => (TBAR, bc) :: r_pat p ++ (TARROW, inner) :: r_body b ++ nl bl ++ r_arms r
+  end
+with r_sarms (a : lsarms) : list ptok :=
+  match a with
+  | SLast bc (Some v) b => (TBAR, bc) :: (TA v, inner) :: (TARROW, inner) :: r_body b
+  | SLast bc None b => (TBAR, bc) :: (TUS, inner) :: (TARROW, inner) :: r_body b
+  | SCons bc lit b bl r => (TBAR, bc) :: (TSTR lit, inner) :: (TARROW, inner) :: r_body b ++ nl bl ++ r_sarms r
   end.
 
 Fixpoint r_prog (p : lprog) : list ptok :=
@@ -532,14 +547,17 @@ with er_atoms (l : latoms) : list atom :=
 with er_term (t : lterm) : expr :=
   match t with
   | LApp a l => EApp (er_atom a :: er_atoms l)
-  | LIf1 c t e => EIf (er_sx c) (Blk [SExpr (er_sx t)]) (Some (Blk [SExpr (er_sx e)]))
-  | LIf c _ t r => EIf (er_sx c) (er_block t) (Some (er_ifrest r))
+  | LIf1 c t None => EIf (er_sx c) (Blk [SExpr (er_sx t)]) None
+  | LIf1 c t (Some e) => EIf (er_sx c) (Blk [SExpr (er_sx t)]) (Some (Blk [SExpr (er_sx e)]))
+  | LIf c _ t r => EIf (er_sx c) (er_block t) (er_ifrest r)
   | LMatch tg _ arms => EMatch (er_sx tg) (er_arms arms)
+  | LSMatch tg _ arms => EMatch (er_sx tg) (er_sarms arms)
   end
-with er_ifrest (r : lifrest) : block :=
+with er_ifrest (r : lifrest) : option block :=
   match r with
-  | IElse _ _ b => er_body b
-  | IElif _ _ c _ t r' => Blk [SExpr (EIf (er_sx c) (er_block t) (Some (er_ifrest r')))]
+  | IEnd => None
+  | IElse _ _ b => Some (er_body b)
+  | IElif _ _ c _ t r' => Some (Blk [SExpr (EIf (er_sx c) (er_block t) (er_ifrest r'))])
   end
 with er_body (b : lbody) : block :=
   match b with BInline b' => er_block b' | BNext _ b' => er_block b' end
@@ -567,6 +585,12 @@ with er_arms (a : larms) : list rule :=
   match a with
   | MLast _ p b => [Rule (er_pat p) (er_body b)]
   | MCons _ p b _ r => Rule (er_pat p) (er_body b) :: er_arms r
+  end
+with er_sarms (a : lsarms) : list rule :=
+  match a with
+  | SLast _ (Some v) b => [Rule [TA v] (er_body b)]
+  | SLast _ None b => [Rule [TUS] (er_body b)]
+  | SCons _ lit b _ r => Rule [TSTR lit] (er_body b) :: er_sarms r
   end.
 
 Definition er_prog (p : lprog) : list root := map (fun x => RLet (er_stmt (snd x))) p.
@@ -574,18 +598,22 @@ Definition er_prog (p : lprog) : list root := map (fun x => RLet (er_stmt (snd x
 (** --- which layouts keep the block structure --- *)
 Definition bcol (b : lblock) : nat := match b with LB c _ _ => c end.
 Definition body_col (b : lbody) : nat := match b with BInline b' => bcol b' | BNext _ b' => bcol b' end.
-Fixpoint ifrest_bd (r : lifrest) : nat :=
-  match r with IElse _ _ b => body_col b | IElif _ _ _ _ _ r' => ifrest_bd r' end.
+(* [prev]: the column of the block just before *)
+Fixpoint ifrest_bd (prev : nat) (r : lifrest) : nat :=
+  match r with IEnd => prev | IElse _ _ b => body_col b | IElif _ _ _ _ t r' => ifrest_bd (bcol t) r' end.
 Fixpoint arms_bd (a : larms) : nat :=
   match a with MLast _ _ b => body_col b | MCons _ _ _ _ r => arms_bd r end.
+Fixpoint sarms_bd (a : lsarms) : nat :=
+  match a with SLast _ _ b => body_col b | SCons _ _ _ _ r => sarms_bd r end.
 
 (** the column of the outermost block that is still open where the construct ends: the next line must
     stay strictly left of it (None: the construct ends with an atom) *)
 Definition term_bd (t : lterm) : option nat :=
   match t with
   | LApp _ _ => None | LIf1 _ _ _ => None
-  | LIf _ _ _ r => Some (ifrest_bd r)
+  | LIf _ _ t r => Some (ifrest_bd (bcol t) r)
   | LMatch _ _ arms => Some (arms_bd arms)
+  | LSMatch _ _ arms => Some (sarms_bd arms)
   end.
 Fixpoint expr_bd (e : lexpr) : option nat :=
   match e with LT t => term_bd t | LOp _ _ _ _ e' => expr_bd e' end.
@@ -598,6 +626,34 @@ Fixpoint expr_tm (e : lexpr) : bool :=
   match e with LT t => term_tm t | LOp _ _ _ _ e' => expr_tm e' end.
 Definition stmt_tm (s : lstmt) : bool :=
   match s with LLet _ _ e => expr_tm e | LLetFn _ _ _ _ => false | LExpr e => expr_tm e end.
+
+(** is an if without else still open where the construct ends? (a following else/elif would attach to
+    it: the dangling else goes to the innermost if) *)
+Fixpoint term_io (t : lterm) : bool :=
+  match t with
+  | LApp _ _ => false
+  | LIf1 _ _ _ => false          (* on one line 'else' is only looked for on the same line *)
+  | LIf _ _ _ r => ifrest_io r
+  | LMatch _ _ arms => arms_io arms
+  | LSMatch _ _ arms => sarms_io arms
+  end
+with ifrest_io (r : lifrest) : bool :=
+  match r with IEnd => true | IElse _ _ b => body_io b | IElif _ _ _ _ _ r' => ifrest_io r' end
+with body_io (b : lbody) : bool :=
+  match b with BInline b' => block_io b' | BNext _ b' => block_io b' end
+with expr_io (e : lexpr) : bool :=
+  match e with LT t => term_io t | LOp _ _ _ _ e' => expr_io e' end
+with stmt_io (s : lstmt) : bool :=
+  match s with LLet _ _ e => expr_io e | LLetFn _ _ _ b => body_io b | LExpr e => expr_io e end
+with block_io (b : lblock) : bool :=
+  match b with LB _ s r => rest_io (stmt_io s) r end
+(* [d]: the answer for the statement before [r] *)
+with rest_io (d : bool) (r : lrest) : bool :=
+  match r with LNil => d | LCons _ _ s r' => rest_io (stmt_io s) r' end
+with arms_io (a : larms) : bool :=
+  match a with MLast _ _ b => body_io b | MCons _ _ _ _ r => arms_io r end
+with sarms_io (a : lsarms) : bool :=
+  match a with SLast _ _ b => body_io b | SCons _ _ _ _ r => sarms_io r end.
 
 Definition under (bd : option nat) (c : nat) : Prop := match bd with None => True | Some m => c < m end.
 Definition is_lexpr (s : lstmt) : Prop := match s with LExpr _ => True | _ => False end.
@@ -614,16 +670,21 @@ with wf_term (off : nat) (t : lterm) : Prop :=
   match t with
   | LApp a l => wf_atom off a /\ wf_atoms off l
   | LIf1 _ _ _ => True
-  | LIf _ _ t r => wf_block off t /\ wf_ifrest off (bcol t) r
+  | LIf _ _ t r => wf_block off t /\ wf_ifrest off t r
   | LMatch _ _ arms =>
       match arms with MLast _ p _ => not_default p | MCons _ p _ _ _ => not_default p end /\
       wf_arms off None arms
+  | LSMatch _ _ arms =>
+      match arms with SLast _ _ _ => False | SCons _ _ _ _ _ => True end /\     (* at least one literal rule *)
+      wf_sarms off None arms
   end
-(* [prev]: the column of the block just before: 'else' / 'elif' must be strictly left of it *)
-with wf_ifrest (off : nat) (prev : nat) (r : lifrest) : Prop :=
+(* [prev]: the block just before: 'else' / 'elif' must be strictly left of it, and it must not end in an
+   if without else (that if would take the else) *)
+with wf_ifrest (off : nat) (prev : lblock) (r : lifrest) : Prop :=
   match r with
-  | IElse _ ec b => ec < prev /\ wf_body off b
-  | IElif _ ec _ _ t r' => ec < prev /\ wf_block off t /\ wf_ifrest off (bcol t) r'
+  | IEnd => True
+  | IElse _ ec b => ec < bcol prev /\ block_io prev = false /\ wf_body off b
+  | IElif _ ec _ _ t r' => ec < bcol prev /\ block_io prev = false /\ wf_block off t /\ wf_ifrest off t r'
   end
 with wf_body (off : nat) (b : lbody) : Prop :=
   match b with BInline b' => wf_block off b' | BNext _ b' => wf_block off b' end
@@ -654,6 +715,13 @@ with wf_arms (off : nat) (prev : option nat) (a : larms) : Prop :=
   match a with
   | MLast bc _ b => off <= bc /\ under prev bc /\ wf_body off b
   | MCons bc p b _ r => off <= bc /\ under prev bc /\ not_default p /\ wf_body off b /\ wf_arms off (Some (body_col b)) r
+  end
+(* string match: the literal rules and the variable rule are not tested against the offside line (they only
+   have to be left of the previous body); the default rule is *)
+with wf_sarms (off : nat) (prev : option nat) (a : lsarms) : Prop :=
+  match a with
+  | SLast bc fin b => under prev bc /\ (fin = None -> off <= bc) /\ wf_body off b
+  | SCons bc _ b _ r => under prev bc /\ wf_body off b /\ wf_sarms off (Some (body_col b)) r
   end.
 
 (** root statements are lets; the next one starts left of everything the previous one left open *)
